@@ -177,7 +177,8 @@ theorem round_batch (cfg : Cfg) (dl : Nat) (st : PState) (h : st.clock < dl)
     (hne : batchOf cfg st ≠ []) :
     round cfg dl st =
       match processEvents cfg (afterSend cfg st) (sortEvents (eventsOf cfg st)) with
-      | (st2, some r) => .done r st2
+      | (st2, some r) =>
+        .done r (cancelInFlight st2 (unprocessed cfg (afterSend cfg st) (sortEvents (eventsOf cfg st))))
       | (st2, none) => .next st2 := by
   have h1 : ¬ st.clock ≥ dl := by omega
   have h2 : (takeBatch cfg st.disableUdp (max cfg.ncr 1) st.queue []).1.isEmpty = false := by
@@ -193,7 +194,7 @@ theorem round_batch_log (cfg : Cfg) (dl : Nat) (st : PState) (h : st.clock < dl)
       st.log ++ (sendBatch cfg st.disableUdp st.clock (batchOf cfg st) st.conns).2.2 := by
   rw [round_batch cfg dl st h hne]
   have := processEvents_log cfg (afterSend cfg st) (sortEvents (eventsOf cfg st))
-  split <;> (rename_i heq; rw [heq] at this; simpa [RoundOut.state, afterSend] using this)
+  split <;> (rename_i heq; rw [heq] at this; simpa [RoundOut.state, afterSend, cancelInFlight] using this)
 
 /-- **truncated ⇒ TCP**.  If in some round the request to server `s` ends with a truncated reply, `s`
 has a TCP configuration, the round does not end the lookup and the deadline has not passed, then the
